@@ -178,6 +178,32 @@ def parse_dot(path):
     return nodes, edges, inits
 
 
+def collect_prints(text):
+    """values printed by PrintT in a TLC log, one string per value.  TLC pretty-prints a value that does not fit a line over
+    several lines (`<< "TAG",` then one element per line): they are joined until the brackets balance and the opening is
+    normalised to `<<"TAG"`, so that TlcResult.tuples() finds them (losing them once hid real mismatches, DESIGN 0.6)."""
+    prints, pending = [], None
+    for ln in text.splitlines():
+        if pending is not None:
+            pending += " " + ln.strip()
+            if pending.count("<<") <= pending.count(">>"):
+                prints.append(re.sub(r"^<<\s+", "<<", pending))
+                pending = None
+            continue
+        if ln.startswith("<<") and ln.count("<<") > ln.count(">>"):
+            pending = ln.strip()
+            continue
+        if ln.startswith('"') or ln.startswith("<<"):
+            prints.append(re.sub(r"^<<\s+", "<<", ln))
+    return prints
+
+
+def _selftest():
+    sample = '<<"A", 1>>\n<< "MISMATCH",\n   7,\n   << 58,\n      39 >> >>\nother line\n<< "PARTIAL", 3 >>\n"text"\n'
+    got = collect_prints(sample)
+    assert got[0] == '<<"A", 1>>' and got[1].startswith('<<"MISMATCH"') and parse_tla_value(got[1]) == ["MISMATCH", 7, [58, 39]] and got[2].startswith('<<"PARTIAL"') and got[3] == '"text"', got
+
+
 # --------------------------------------------------------------------------
 class TlcResult:
     def __init__(self):
@@ -341,19 +367,8 @@ class Check:
         shutil.rmtree(md, ignore_errors=True)
         with open(os.path.join(self.out, "tlc_" + name + ".log"), "w") as f:
             f.write(res.out)
-        pending = None   # TLC pretty-prints long values over several lines: join them until the brackets balance
+        res.prints = collect_prints(res.out)
         for ln in res.out.splitlines():
-            if pending is not None:
-                pending += " " + ln.strip()
-                if pending.count("<<") <= pending.count(">>"):
-                    res.prints.append(re.sub(r"^<<\s+", "<<", pending))   # TLC pretty-prints long tuples as `<< "TAG",` + one element per line
-                    pending = None
-                continue
-            if ln.startswith("<<") and ln.count("<<") > ln.count(">>"):
-                pending = ln.strip()
-                continue
-            if ln.startswith('"') or ln.startswith("<<"):
-                res.prints.append(re.sub(r"^<<\s+", "<<", ln))
             m = re.match(r"(\d+) states generated, (\d+) distinct states found", ln)
             if m:
                 res.generated, res.distinct = int(m.group(1)), int(m.group(2))
@@ -565,3 +580,6 @@ def units(s):
 
 def text(us):
     return "".join(chr(u) if 32 <= u < 127 else "\\x%02x" % u for u in us)
+
+
+_selftest()
